@@ -112,7 +112,7 @@ ToDur(r, largest) ==
   IN Dur10(FromInt(r.y), FromInt(r.mo), FromInt(r.w), Add(FromInt(r.d), tb.d), tb.h, tb.mi, tb.s, tb.ms, tb.us, tb.ns)
 
 \* Duration.round({largest, smallest, inc, mode}, relativeTo: rel)  with resolved options
-RoundRel(rel, D, largest, smallest, inc, mode) ==
+RoundRelValue(rel, D, largest, smallest, inc, mode) ==
   LET tg == TargetOf(rel, D)
       start == DT(rel, Midnight)
   IN IF tg.kind # "ok" THEN ErrRange
@@ -121,6 +121,9 @@ RoundRel(rel, D, largest, smallest, inc, mode) ==
           IN IF smallest = "nanosecond" /\ inc = 1 THEN DurNew(ToDur(diff, largest))
              ELSE LET rr == RoundRelative(diff, EpochNsOf(tg.val), start, largest, inc, smallest, mode)
                   IN IF rr.kind # "ok" THEN ErrRange ELSE IF rr.outside THEN [kind |-> "any"] ELSE DurNew(ToDur(rr.dur, largest))
+\* the option rule of Duration.prototype.round comes first: a date unit takes an increment above 1 only as the largest unit too
+DateIncRule(largest, smallest, inc) == inc > 1 /\ largest # smallest /\ smallest \in DateUnits
+RoundRel(rel, D, largest, smallest, inc, mode) == IF DateIncRule(largest, smallest, inc) THEN ErrRange ELSE RoundRelValue(rel, D, largest, smallest, inc, mode)
 
 \* Duration.total(unit, relativeTo: rel) as an exact rational [n, d] (d > 0)
 TotalRel(rel, D, unit) ==
